@@ -1,0 +1,50 @@
+//go:build verif
+
+package inmemory
+
+import (
+	"github.com/ngicks/gokugen/def"
+	sortabletask "github.com/ngicks/gokugen/internal/sortable_task"
+	"github.com/ngicks/mockable"
+)
+
+// VerifSetClock replaces the clock. Verification builds only.
+func (r *InMemoryRepository) VerifSetClock(c mockable.Clock) {
+	r.mu.Lock()
+	defer r.mu.Unlock()
+	r.clock = c
+}
+
+// VerifSetIdGen replaces the id generator. Verification builds only.
+func (r *InMemoryRepository) VerifSetIdGen(g def.RandStrGen) {
+	r.mu.Lock()
+	defer r.mu.Unlock()
+	r.randStrGen = g
+}
+
+// VerifHeapEntry is one element of the heap as seen by VerifProbe.
+type VerifHeapEntry struct {
+	Id             string
+	Index          int
+	InsertionOrder uint64
+}
+
+// VerifProbe returns the heap array (in array order) and the ids in map order.
+func (r *InMemoryRepository) VerifProbe() (heap []VerifHeapEntry, mapOrder []VerifHeapEntry) {
+	r.mu.Lock()
+	defer r.mu.Unlock()
+	cloned := r.heap.Clone()
+	cloned.Filter(func(innerSlice *[]*sortabletask.IndexedTask) {
+		for _, e := range *innerSlice {
+			heap = append(heap, VerifHeapEntry{Id: e.Task.Id, Index: e.Index, InsertionOrder: e.InsertionOrder})
+		}
+		// leave nothing for the Init call that follows: the elements are shared with the real heap.
+		*innerSlice = nil
+	})
+	for pair := r.orderedMap.Oldest(); pair != nil; pair = pair.Next() {
+		mapOrder = append(mapOrder, VerifHeapEntry{
+			Id: pair.Key, Index: pair.Value.Index, InsertionOrder: pair.Value.InsertionOrder,
+		})
+	}
+	return heap, mapOrder
+}
